@@ -1,0 +1,74 @@
+//! Simulation seams for `service_daemon.rs` (cargo feature `verif-hooks`).
+//!
+//! Stand-ins for the daemon's sockets at the call sites whose syscalls are bypassed under
+//! simulation.  A hook shadows the local `sock` with one of these right before the original
+//! statement, so the original statement runs unmodified and its method call lands here.
+//! Every method falls through to the real socket when the thread is not simulated.
+//! This file is a child module of `service_daemon`.
+
+use super::*;
+use crate::verif::sim;
+use socket_pktinfo::PktInfo;
+
+/// Stands in for `&PktInfoUdpSocket` (call sites written `sock.xxx(..)`).
+/// Derefs to the real socket for everything that is not a seam (`domain()`, passing on).
+pub struct SimSock<'a>(pub &'a PktInfoUdpSocket);
+
+/// Stands in for `&MyUdpSocket` (call sites written `sock.pktinfo.xxx(..)`).
+pub struct SimMySock<'a> {
+    pub pktinfo: SimSock<'a>,
+}
+
+impl<'a> SimMySock<'a> {
+    pub fn new(pktinfo: &'a PktInfoUdpSocket) -> Self {
+        SimMySock {
+            pktinfo: SimSock(pktinfo),
+        }
+    }
+}
+
+impl std::ops::Deref for SimSock<'_> {
+    type Target = PktInfoUdpSocket;
+    fn deref(&self) -> &PktInfoUdpSocket {
+        self.0
+    }
+}
+
+impl SimSock<'_> {
+    /// Ingress seam: the injected queue of this socket's family instead of the syscall.
+    pub fn recv(&self, buf: &mut [u8]) -> io::Result<(usize, PktInfo)> {
+        match sim::rx(self.0.domain() == Domain::IPV4, buf) {
+            Some(Some(r)) => Ok(r),
+            Some(None) => Err(io::ErrorKind::WouldBlock.into()),
+            None => self.0.recv(buf),
+        }
+    }
+
+    pub fn leave_multicast_v4(&self, addr: &Ipv4Addr, interface: &Ipv4Addr) -> io::Result<()> {
+        if sim::active() {
+            return Ok(());
+        }
+        self.0.leave_multicast_v4(addr, interface)
+    }
+
+    pub fn leave_multicast_v6(&self, addr: &Ipv6Addr, interface: u32) -> io::Result<()> {
+        if sim::active() {
+            return Ok(());
+        }
+        self.0.leave_multicast_v6(addr, interface)
+    }
+
+    pub fn set_multicast_if_v4(&self, interface: &Ipv4Addr) -> io::Result<()> {
+        if sim::active() {
+            return Ok(());
+        }
+        self.0.set_multicast_if_v4(interface)
+    }
+
+    pub fn set_multicast_if_v6(&self, interface: u32) -> io::Result<()> {
+        if sim::active() {
+            return Ok(());
+        }
+        self.0.set_multicast_if_v6(interface)
+    }
+}
